@@ -31,7 +31,8 @@ RULE = ('random crystals (all 11 3-D and 5 2-D lattice systems, 1-3 orbits, 1-2 
         '(kind, rounded lattice, mesh)')
 ASSUMPTIONS = ['a fullkptmesh call that has not returned after 60 s (normal: < 1 s) is reported as non-terminating',
                'Brillouin-zone membership |k|^2 <= |k-G|^2 + 1e-9 |G|^2 over all reciprocal vectors with indices |m| <= 5 (<= 8 for sheared cells; the '
-               'repository builds its zone from |m| <= 3)',
+               'repository builds its zone from |m| <= 3); in the directed family only the vectors with |G| <= 2 max|k| of the returned mesh are '
+               'evaluated (no other vector can be violated or touched by a point of that mesh)',
                'averages compared to 1e-12 x (number of terms in the shell); mesh points compared in reduced coordinates to 1e-9',
                'coverage counters points/pairs_needing_3_sweeps (not oracles): the returned points are wrapped back to the raw mesh '
                '(reduced coordinates in (-1/2, 1/2]) and the documented folding (sweep over the zone-face vectors in the order of '
@@ -41,7 +42,7 @@ REQUIRED_OBS = {'meshes_checked': 100, 'eval:C22:in-first-BZ': 100, 'eval:C22:fu
                 'eval:C22:invariant-average': 500, 'mesh:even': 10, 'mesh:odd': 10, 'mesh:anisotropic': 20, 'dim2_meshes': 20,
                 'dim3_meshes': 20, 'reduced_smaller': 50, 'folded_points': 100, 'boundary_points': 20, 'nonzero_averages': 100, 'sheared_cells': 8, 'low_symmetry_on_symmetric_lattice': 10,
                 'directed_pairs': 2000, 'directed_lattices': 100, 'directed:orthoF-aniso': 500, 'directed:orthoI-aniso': 500,
-                'directed:tric-aniso': 500, 'pairs_needing_2_sweeps': 100, 'pairs_needing_3_sweeps': 10, 'points_needing_3_sweeps': 10}
+                'directed:tric-aniso': 500, 'directed_mesh:anisotropic': 1500, 'directed_folded_points': 1000, 'pairs_needing_2_sweeps': 100, 'pairs_needing_3_sweeps': 10, 'points_needing_3_sweeps': 10}
 CASE_TIMEOUT = 600
 EXTRA_KINDS = ('strainF', 'strainI', 'strainH3', 'strainH2')
 LOWSYM_KINDS = ('cubicP', 'cubicF', 'cubicI', 'tetP', 'ortho', 'hex', 'square', 'rect', 'hex2', 'crect')
@@ -218,11 +219,9 @@ def run_directed(case, mon, rng, crystal):
             kpts = np.asarray(kpts, dtype=float)
             mon.count('directed_pairs')
             mon.count('directed:' + kind)
-            mon.count('meshes_checked')
-            mon.count('dim3_meshes')
-            if len(set(N)) > 1: mon.count('mesh:anisotropic')
-            elif N[0] % 2 == 0: mon.count('mesh:even')
-            else: mon.count('mesh:odd')
+            if len(set(N)) > 1: mon.count('directed_mesh:anisotropic')
+            elif N[0] % 2 == 0: mon.count('directed_mesh:even')
+            else: mon.count('directed_mesh:odd')
             mon.sig([kind, np.round(L, 3).tolist(), N])
             if not mon.check(kpts.shape == (nk, 3), 'C22:full-mesh-count', lambda: 'shape %s for %s' % (kpts.shape, desc)):
                 continue
@@ -238,7 +237,7 @@ def run_directed(case, mon, rng, crystal):
                 worst, nout, nbound = -1., 0, 0
             mon.check(worst <= 1e-9, 'C22:in-first-BZ', lambda: '%d of %d points outside, max (2k.G-G.G)/G.G = %.3e %s' % (
                 nout, nk, worst, desc), tags=mtags)
-            mon.count('boundary_points', nbound)
+            mon.count('directed_boundary_points', nbound)
             frac = kpts @ L / (2 * np.pi)
             scaled = frac * np.array(N)[None, :]
             rel = scaled - scaled[0][None, :]
@@ -247,7 +246,7 @@ def run_directed(case, mon, rng, crystal):
             cells = {tuple(r) for r in idx.tolist()}
             mon.check(onmesh < 1e-9 and len(cells) == nk, 'C22:full-mesh-complete',
                       lambda: 'off-mesh %.2e, %d distinct points of %d %s' % (onmesh, len(cells), nk, desc), tags=mtags)
-            mon.count('folded_points', int(np.sum(np.any(np.abs(frac) > 0.5 + 1e-9, axis=1))))
+            mon.count('directed_folded_points', int(np.sum(np.any(np.abs(frac) > 0.5 + 1e-9, axis=1))))
             # coverage: how many sweeps over the zone planes does the raw mesh need?
             if BZG is not None:
                 f = frac - np.round(frac)
